@@ -65,8 +65,8 @@ def strat(tier):
     ang = st.one_of(st.floats(0, 2 * math.pi), st.floats(0, 2 * math.pi),
                     st.sampled_from([math.pi / 2, -math.pi / 2, math.pi, math.pi / 4, 1e-3]))
     return st.tuples(st.one_of(*opts), st.sampled_from(["shift", "rotate", "rotate", "mirror"]), ang,
-                     st.tuples(gen.rounded(-30, 30, 3), gen.rounded(-30, 30, 3))).map(
-        lambda t: dict(t[0], op=t[1], angle=t[2], shift=list(t[3])))
+                     st.tuples(gen.rounded(-30, 30, 3), gen.rounded(-30, 30, 3)), st.sampled_from([False, False, False, True])).map(
+        lambda t: dict(t[0], op=t[1], angle=t[2], shift=list(t[3]), int_coords=t[4]))
 
 
 def _tkey(sc):
@@ -117,6 +117,10 @@ def run(case):
         sc = dict(sc, pl=dict(sc["pl"], kgap=40.0 + sc["pl"]["kgap"]))
     s, th, info = gen.build_scene(sc, o, det)
     P = gen.detector_points_xyz(det, unit)
+    int_coords = bool(case.get("int_coords")) and sc["th"]["t"] != "lens" and not (sc["th"]["t"] in ("mielens", "amielens"))
+    if int_coords:
+        # detector positions on the integer lattice of the length unit in use (the particle keeps its generic place)
+        P = np.column_stack([np.round(P[:, 0]), np.round(P[:, 1]), P[:, 2]])
     if sc["th"]["t"] == "lens":
         kk = gen.wavevec(o)
         c0 = np.array(info["centers"][0])
@@ -127,6 +131,8 @@ def run(case):
     op = case["op"]
     a = case["angle"]
     labels = [gen.scene_label(sc) if tk not in ("lens_tm", "lens_ms") else sc["kind"] + "+lens(%s)" % sc["th"]["inner"], op]
+    if int_coords:
+        labels.append("integer_typed_coordinates")
     if sc["th"]["t"] == "lens" and sc["kind"] == "cluster" and sc["th"].get("inner") == "mie":
         labels[0] = "cluster+lens(mie)"
     pol = np.array(o["pol"], dtype=float)
@@ -158,6 +164,9 @@ def run(case):
         Mvec = M
     d1 = hp.detector_points(x=P[:, 0], y=P[:, 1], z=P[:, 2])
     d2 = hp.detector_points(x=P2[:, 0], y=P2[:, 1], z=P2[:, 2])
+    if int_coords:
+        # the same positions, held in integer-typed coordinate arrays (a pixel-index grid with spacing 1)
+        d1 = hp.detector_points(x=P[:, 0].astype(np.int64), y=P[:, 1].astype(np.int64), z=P[:, 2])
     kw1 = dict(medium_index=o["nm"], illum_wavelen=o["wl"], illum_polarization=tuple(pol))
     kw2 = dict(medium_index=o["nm"], illum_wavelen=o["wl"], illum_polarization=tuple(pol2))
     tol = TOL[tk] * TOLX
